@@ -26,6 +26,8 @@ MAILBOX_HOST = "mailbox.sim"
 RELAY_HOST = "relay.sim"
 URL = "ws://%s:%d/v1" % (MAILBOX_HOST, MAILBOX_PORT)
 RELAY_HINT = "tcp:%s:%d" % (RELAY_HOST, RELAY_PORT)
+RELAY2_HOST, RELAY2_PORT = "relay2.sim", 4002
+RELAY2_HINT = "tcp:%s:%d" % (RELAY2_HOST, RELAY2_PORT)
 
 CURRENT = [None]
 
@@ -192,6 +194,19 @@ class World:
         f.transit = Transit(usage, self.reactor.seconds)
         self.relay = f
         self.reactor.listenTCP(RELAY_PORT, f)
+
+    def start_second_relay(self):
+        """an independent second transit relay (relay2.sim:4002), e.g. when the two sides are configured differently"""
+        from wormhole_transit_relay.transit_server import Transit, TransitConnection
+        from wormhole_transit_relay.usage import create_usage_tracker
+        usage = create_usage_tracker(blur_usage=None, log_file=None, usage_db=None)
+        f = protocol.ServerFactory()
+        f.protocol = TransitConnection
+        f.log_requests = False
+        f.transit = Transit(usage, self.reactor.seconds)
+        self.relay2 = f
+        self.reactor.names[RELAY2_HOST] = "10.9.9.3"
+        self.reactor.listenTCP(RELAY2_PORT, f)
 
     # ---- helpers over the server's own tables
     def nameplate_claims(self):
